@@ -25,7 +25,7 @@ APP_ID = 16777251
 POINTS_CLIENT = ["connecting", "cer_sent", "open_idle", "open_traffic", "open_parked", "open_backlog", "closing"]
 POINTS_SERVER = ["accepted_no_cer", "open_idle", "open_traffic", "open_parked", "open_backlog", "closing"]
 CAUSES = {
-    "connecting": ["refused", "local_close", "never"],
+    "connecting": ["refused", "local_close", "never", "unreachable"],
     "cer_sent": ["peer_eof", "peer_rst", "local_close", "non_cea", "local_close_cross_cea", "peer_cer_then_eof",
                  "peer_cer_then_local_close"],
     "accepted_no_cer": ["peer_eof", "peer_rst"],
@@ -122,6 +122,9 @@ class C08(Check):
         # connection (while the DPR is answered, during the linger, after the reset ...), whatever the library
         # answers to each call
         rng3 = random.Random(rng2.getrandbits(48))
+        scn["partial_before_death"] = None
+        if rng3.random() < 0.35:
+            scn["partial_before_death"] = {"kind": rng3.choice(["app", "dwr"]), "frac": rng3.choice([0.02, 0.1, 0.3, 0.6, 0.95])}
         scn["chatty"] = None
         if rng3.random() < 0.3:
             scn["chatty"] = {"gap": rng3.choice([0.0005, 0.005, 0.05, 0.3]), "n": rng3.choice([10, 40])}
@@ -180,7 +183,7 @@ class C08(Check):
             scn["auto_peer_cer"] = False
         net = dict(scn.get("net", {}))
         if point == "connecting":
-            net["connect_outcome"] = "refuse" if cause == "refused" else ("never" if cause == "never" else "ack")
+            net["connect_outcome"] = {"refused": "refuse", "never": "never", "unreachable": "unreachable"}.get(cause, "ack")
             if cause == "local_close":
                 net["connect_delay"] = (0.05, 0.2)
                 peerb["answer_cer"] = "none"
@@ -394,10 +397,18 @@ class C08(Check):
                     sim.after(gap, lambda: w.peer.close(reset=True))
                 else:
                     w.peer.close(reset=True)
-            elif cause == "peer_eof":
-                w.peer.close()
-            elif cause == "peer_rst":
-                w.peer.close(reset=True)
+            elif cause in ("peer_eof", "peer_rst"):
+                pb = scn.get("partial_before_death")
+                if pb and w.peer.sock is not None and w.peer.sock.state == "connected":
+                    # the peer dies in the middle of a message: the first k bytes of a valid message are on the wire
+                    # (and are read by the node) when the connection ends
+                    whole = C.enc_msg(C.app_request(APP_ID, 316, 0x5a00, 0x6a00, "p;3;1", PEER_HOST, PEER_REALM, NODE_REALM)
+                                      if pb["kind"] == "app" else C.dwr(PEER_HOST, PEER_REALM, hbh=0x5a01, e2e=0x6a01))
+                    k_ = max(1, min(len(whole) - 1, int(pb["frac"] * len(whole))))
+                    w.peer.send_raw(whole[:k_], label="partial")
+                    sim.sleep(4 * w.net.cfg.max_latency + 3 * tick + 0.002)
+                    sim.probe("death_mid_message")
+                w.peer.close(reset=(cause == "peer_rst"))
             elif cause == "non_cea":
                 w.peer.send(C.dwa(PEER_HOST, PEER_REALM, hbh=1, e2e=1))
             elif cause == "peer_dpa_late":
@@ -411,7 +422,7 @@ class C08(Check):
                 w.peer.send(C.dpr(PEER_HOST, PEER_REALM, hbh=0x79, e2e=0x8a))
                 # the peer, having sent a DPR itself, closes after a moment
                 sim.after(knobs["SLEEP_TIMER"] / 2 + 0.05, lambda: w.peer.close())
-            elif cause in ("refused", "never"):
+            elif cause in ("refused", "never", "unreachable"):
                 pass       # the cause is the connect outcome itself
             # a local close issued while the state machine reports Closed is refused by the API
             # (documented guard): then there is no connection to end
